@@ -23,53 +23,46 @@ THEOREMS = [
     "Mpc.Sym.C04_both_labels_leak",
 ]
 
-SEND_RE = re.compile(r"\b((?:conn|oti)\.Send\w*)\(([^,)]*)")
-
-# Every value the garbler side hands to the connection / the OT sender, in
-# source order, with the text of its first argument (provenance).  A new send
-# site or a changed argument must be reviewed against the model's view
-# (Props/C04.lean: evaluatorView).
+# Label-carrying hand-overs of the garbler side to the connection / the OT
+# sender (gofacts callseq: source order, same-package helpers inlined,
+# receivers by declared type; robust against renaming and helper extraction).
+# A new hand-over site must be reviewed against the model's view
+# (Props/C04.lean: evaluatorView).  Table rows of the streaming garbler are
+# written into the connection buffer directly (see the advisory below and the
+# window scan over EVERY byte of the stream, which is what decides).
+LABEL_SENDS = ["SendData", "SendLabel", "Send", "SendString"]
 EXPECT_SENDS = {
-    "circuit/garbler.go": [
-        ["conn.SendData", "key[:]"], ["conn.SendUint32", "len(garbled.Gates"], ["conn.SendUint32", "len(data"],
-        ["conn.SendLabel", "d"], ["conn.SendLabel", "i"], ["oti.Send", "garbled.Wires[offset : offset+count]"],
-        ["conn.SendData", "data"]],
-    "compiler/ssa/streamer.go": [
-        ["conn.SendData", "key[:]"], ["conn.SendUint32", "len(prog.Outputs"], ["conn.SendUint32", "len(prog.Steps"],
-        ["conn.SendLabel", "i"], ["oti.Send", "streaming.GetInputs(int(prog.Inputs[0].Type.Bits"],
-        ["conn.SendUint32", "circuit.OpReturn"], ["conn.SendUint32", "w.Int("], ["conn.SendData", "data"],
-        ["conn.SendUint32", "circuit.OpCircuit"], ["conn.SendUint32", "step"], ["conn.SendUint32", "circ.NumGates"],
-        ["conn.SendUint32", "circ.NumWires"], ["conn.SendUint32", "int(maxID + 1"], ["conn.SendString", "arg.Name"],
-        ["conn.SendString", "arg.Type.String("], ["conn.SendUint32", "int(arg.Type.Bits"],
-        ["conn.SendUint32", "len(arg.Compound"]],
+    ("circuit", "Garbler"): ["p2p.Conn.SendData", "p2p.Conn.SendLabel", "p2p.Conn.SendLabel", "ot.OT.Send",
+                             "p2p.Conn.SendData"],
 }
-
-
-def sends(rel):
-    src = vlib.strip_go_comments(vlib.repo_file(rel))
-    return [[m.group(1), m.group(2).strip()] for m in SEND_RE.finditer(src)]
 
 
 def run(ctx):
     ctx.prove("MpcVerif.Props.C04", THEOREMS)
     if ctx.tier == "thorough":
         ctx.leanchecker("MpcVerif.Props.C04")
-    for rel, want in EXPECT_SENDS.items():
-        ctx.fact("send sites of %s" % rel, sends(rel), want)
+    for (pkg, fn), want in EXPECT_SENDS.items():
+        ctx.fact("label-carrying hand-overs of %s.%s (helpers inlined)" % (pkg, fn), ctx.callseq(pkg, fn, LABEL_SENDS), want)
+    got = ctx.callseq("compiler/ssa", "Program.Stream", LABEL_SENDS)
+    ctx.fact("label-carrying hand-overs of the streaming garbler (Program.Stream, helpers inlined): key, I/O descriptions, "
+             "garbler input labels, OT, result",
+             [x for x in (got if isinstance(got, list) else [got]) if not x.endswith("SendString")],
+             ["p2p.Conn.SendData", "p2p.Conn.SendLabel", "ot.OT.Send", "p2p.Conn.SendData"])
+    # Advisory source-text expectations (a drift widens the search, it is no alarm): the tweak counter of streaming
+    # mode is one per stream.  What decides is the oracle on long streamed programs (tweak reuse makes two windows of
+    # the stream differ by R: theorem C04_tweak_reuse_leaks).
     sg = vlib.strip_go_comments(vlib.repo_file("circuit/stream_garble.go"))
-    ctx.fact("streaming garbler: one tweak counter per stream (field Streaming.id, never reset in Garble)",
-             {"field": bool(re.search(r"\n\tid uint32\n", sg)), "uses_field": "stream.garbleGate(gate, &stream.id" in sg,
-              "local_counter_in_Garble": bool(re.search(r"func \(stream \*Streaming\) Garble\([^}]*?var id uint32", sg, re.S))},
-             {"field": True, "uses_field": True, "local_counter_in_Garble": False})
+    calls = re.findall(r"\.garbleGate\(([^;{]*?)\)\s*\n", sg)
+    ctx.advise("streaming garbler passes the address of a field of the stream (not of a local) as tweak counter",
+               bool(calls) and all(re.search(r"&\w+\.\w+", c) for c in calls), True)
     se = vlib.strip_go_comments(vlib.repo_file("circuit/stream_evaluator.go"))
-    m = re.search(r"var id uint32", se)
-    loop = se.find("loop:\n\tfor {")
-    ctx.fact("streaming evaluator: tweak counter declared once, before the instruction loop",
-             {"count": len(re.findall(r"var id uint32", se)), "before_loop": bool(m and 0 < m.start() < loop)},
-             {"count": 1, "before_loop": True})
-    sw = vlib.strip_go_comments(vlib.repo_file("circuit/stream_garble.go"))
-    ctx.fact("streaming garbler writes only table rows (label bytes) into the stream besides gate headers",
-             len(re.findall(r"copy\(buf\[\*bufpos:\], bytes\)", sw)), 1)
+    tv = set(re.findall(r"decrypt\(\w+, \w+, \w+, (\w+),", se))
+    ctx.advise("streaming evaluator: one tweak variable, declared once, never reset",
+               {"vars": len(tv), "decls": sum(len(re.findall(r"var %s uint32" % v, se)) for v in tv),
+                "resets": sum(len(re.findall(r"\b%s\s*(?::=|=[^=])" % v, se)) for v in tv)},
+               {"vars": 1, "decls": 1, "resets": 0})
+    ctx.advise("streaming garbler writes only table rows (label bytes) into the stream besides gate headers",
+               len(re.findall(r"copy\(buf\[\*bufpos:\], bytes\)", sg)), 1)
     quick = ctx.tier == "quick"
     # the shared generic definitions are tied byte-exactly to the Go code (C02's correspondence)
     ctx.build_drv("drv_c02")
@@ -90,7 +83,7 @@ def run(ctx):
             ctx.evaluations += k
         c = ctx.coverage.get("counters", {})
         ctx.coverage["window_positions_scanned"] = sum(v for k, v in c.items() if k.endswith("window_positions"))
-        if ctx.broken and not ctx.fails:
+        if ctx.widen:
             for s in range(ctx.seed + 7000, ctx.seed + 7003):
                 for mode, n, extra in (("whole", 800, ()), ("stream", 200, ()), ("stream", 30, ("-extra", "long"))):
                     ops, out, meta = ctx.run_hx(mode, n, seed=s, tag="-widen" + ("-long" if extra else ""), timeout=2400,
